@@ -6,7 +6,9 @@
 //   MC_SLICE 2: checked_vec                (exact-size heap storage, pointer iterators, every
 //                                           out-of-range operator[] is counted, not executed)
 // constructed through every constructor (extent values as pack, extents, mapping, with fill
-// value, with container copy / move; copy, move, assignment, swap).
+// value, with container copy / move; copy, move, copy/move assignment, swap - round 2: with
+// the independence of every copy checked by writing through one object and reading the others;
+// not in the sanitizer flavour, whose compile time is the longest of the property).
 // On EVERY in-range multi-index: the address of operator()(i...) (const and non-const),
 // operator[](array), operator[](span), operator[](i...) (when the language has it) and of the
 // same element seen through to_mdspan() / the mdspan conversion, minus container_data(), equals
@@ -175,6 +177,7 @@ struct MaObs {
     std::vector<ll> off[kForms];
     std::vector<ll> readback; // slot at which the value written through index k was found (-1 none)
     int view_ext_ok{-1};
+    int independent{-1}; // copy/move/assignment/swap: copies own their elements (round 2)
     int is_unique{-1}, is_exhaustive{-1}, is_strided{-1};
     char const* volatile phase{"construction"};
 };
@@ -295,6 +298,7 @@ void verify_ma(Ctx& c, MaObs const& o, Indices const& ix, Expect const& x, TypeI
     ok      = c.eq("extents().extent(r) for all r", show(std::vector<ll>(o.ext2, o.ext2 + R)), show(x.ext)) && ok;
     ok      = c.eq("container_size()", o.container_size, x.container_size) && ok;
     if (o.fill_checked) { ok = c.eq("every element holds the fill value", o.fill_ok, true) && ok; }
+    if (o.independent != -1) { ok = c.eq("copy, move target, assignment target and swapped objects own their elements (writes through one are not seen through another)", o.independent, 1) && ok; }
     if (!ok) { return; }
     c.eq_o("rank()", o.rank, R);
     c.eq_o("rank_dynamic()", o.rank_dynamic, ti.rank_dynamic);
@@ -414,6 +418,22 @@ void mk_mapping_container_move(ll const* a, ll const* /*w*/, Indices const& ix, 
     etl::mdarray<int, E, L, container_t<E>> m(typename L::template mapping<E>(make_ext<E>(a)), etl::move(c));
     observe_ma(m, ix, 80, span, o);
 }
+/// all `span` required elements of x hold v / are set to v (kept out of line: called many times per mdarray type)
+template <typename MA>
+[[gnu::noinline]] bool holds_all(MA const& x, ll span, int v)
+{
+    bool ok = static_cast<ll>(x.container_size()) >= span;
+    for (ll k = 0; ok && k < span; ++k) { ok = x.container_data()[k] == v; }
+    return ok;
+}
+template <typename MA>
+[[gnu::noinline]] void fill_all(MA& x, ll span, int v)
+{
+    for (ll k = 0; k < span && k < static_cast<ll>(x.container_size()); ++k) { x.container_data()[k] = v; }
+}
+
+#if defined(MC_FLAVOUR_SAN)
+// the sanitizer flavour of this file is the slowest translation unit of the property: it keeps the short form
 template <typename L, typename E>
 void mk_copy_move_swap(ll const* a, ll const* /*w*/, Indices const& ix, ll span, MaObs& o)
 {
@@ -427,6 +447,42 @@ void mk_copy_move_swap(ll const* a, ll const* /*w*/, Indices const& ix, ll span,
     swap(assigned, other);
     observe_ma(other, ix, 81, span, o);
 }
+#else
+template <typename L, typename E>
+void mk_copy_move_swap(ll const* a, ll const* /*w*/, Indices const& ix, ll span, MaObs& o)
+{
+    using MA = etl::mdarray<int, E, L, container_t<E>>;
+    auto holds = [span](MA const& x, int v) { return holds_all(x, span, v); };
+    auto fill  = [span](MA& x, int v) { fill_all(x, span, v); };
+    bool indep = true;
+    MA src(make_ext<E>(a), 81);
+    MA copy(src);
+    indep = indep && holds(copy, 81) && (span == 0 || copy.container_data() != src.container_data());
+    fill(copy, 82); // must not be seen through src
+    indep = indep && holds(src, 81) && holds(copy, 82);
+    fill(src, 83); // nor the other way round
+    indep = indep && holds(copy, 82) && holds(src, 83);
+    fill(copy, 81);
+    MA moved(etl::move(copy));
+    indep = indep && holds(moved, 81) && holds(src, 83) && (span == 0 || moved.container_data() != src.container_data());
+    MA assigned(make_ext<E>(a), 5);
+    assigned = moved;
+    indep = indep && holds(assigned, 81);
+    fill(assigned, 84);
+    indep = indep && holds(moved, 81) && holds(assigned, 84);
+    fill(assigned, 81);
+    MA massigned(make_ext<E>(a), 7);
+    massigned = etl::move(moved);
+    indep = indep && holds(massigned, 81) && holds(assigned, 81);
+    MA other(make_ext<E>(a), 6);
+    swap(assigned, other);
+    indep = indep && holds(assigned, 6) && holds(other, 81) && holds(src, 83) && holds(massigned, 81);
+    fill(assigned, 85);
+    indep = indep && holds(other, 81);
+    o.independent = indep;
+    observe_ma(other, ix, 81, span, o);
+}
+#endif
 
 struct MaFns {
     MaFn f[2][9]; // per layout (0 right, 1 left)
@@ -481,7 +537,7 @@ void run_ma_case(Ctx& c, TypeInfo const& ti, MaFns const& f, std::size_t maxSpan
         "mdarray::mdarray(extents,value)", "mdarray::mdarray(mapping,value)", "mdarray::mdarray(extents,container const&)", "mdarray::mdarray(mapping,container&&)",
         "mdarray copy/move/assignment/swap"};
     char const* const how[9]   = {"dynamic extents as pack", "all extents as pack", "extents", "mapping", "extents, 77", "mapping, 78", "extents, container filled with 79",
-        "mapping, moved container filled with 80", "copy, move, assign, swap of mdarray(extents, 81)"};
+        "mapping, moved container filled with 80", "copy, move, copy-assign, move-assign, swap of mdarray(extents, 81), independence of the copies"};
     std::vector<ll> dv(ti.rank_dynamic, 0);
     do {
         auto const e         = full_extents(st, dv);
